@@ -86,8 +86,12 @@ func (m *Machine) verifrt(name string, args []Value, g *Term, site ssa.Instructi
 	case "Assert":
 		label := m.argStr(args[1], name)
 		bad := And(g, Not(args[0].(*Term)))
-		m.checkVC("assert", label, m.posOf(site), bad)
-		m.assume(Not(bad))
+		vc := m.checkVC("assert", label, m.posOf(site), bad)
+		if (vc.Result != "unsat" && vc.Result != "trivial") || len(vc.KF) > 0 {
+			// a failed (or known-finding) assertion is assumed from here on so that later
+			// VCs are not polluted by it; a proved one is implied already
+			m.assume(Not(bad))
+		}
 		return nil
 	case "Reach":
 		label := m.argStr(args[0], name)
